@@ -41,6 +41,9 @@ func scevOrderSource(depth int) string {
 	// pure builtin calls of one loop that feed each other across blocks: whether the second one can be
 	// hoisted depends on whether the first one already was, i.e. on the order the blocks are visited in
 	b.WriteString("\nfunc Chain(a, b []int, flag bool, k int) int {\n\ts := 0\n\tfor i := 0; i < k; i++ {\n\t\tn := len(a)\n\t\tif flag {\n\t\t\ts += max(n, len(b))\n\t\t} else {\n\t\t\ts += min(n, cap(b))\n\t\t}\n\t\tif i > 3 {\n\t\t\ts -= max(len(a), min(n, 7))\n\t\t}\n\t}\n\treturn s\n}\n")
+	// a nested loop whose inner loop has two induction variables starting at two values computed in the outer
+	// body: if anything visits the variables of a loop in map order while names are handed out, the text varies
+	b.WriteString("\nfunc Nest(a, b []int, n int) int {\n\tt := 0\n\tfor i := 0; i < n; i++ {\n\t\tx := len(a) + i\n\t\ty := cap(b) - i\n\t\tz := len(b) * 2\n\t\tfor j, k, m := x, y, z; j < n; j, k, m = j+1, k+2, m+3 {\n\t\t\tt += j ^ k ^ m\n\t\t}\n\t}\n\treturn t\n}\n")
 	// a function beyond the size guard: whatever is reported in place of its canonical IR is part of the
 	// (name, fingerprint, IR) triple too and must not mention where the file lives
 	b.WriteString("\nfunc Huge(a, b int) int {\n\tt := b\n")
